@@ -2,6 +2,7 @@ import CssVerif.Lemmas.Encutils
 import CssVerif.Lemmas.EncutilsDoc
 import CssVerif.Lemmas.EncutilsXml
 import CssVerif.Lemmas.EncutilsXmlReader
+import CssVerif.Lemmas.EncutilsTry
 /-!
 # C20 — encutils reports the document encoding by the documented precedence
 
@@ -531,6 +532,25 @@ theorem str_spec (i : Info) :
   cases h : i.encoding with
   | none => simp [truthy]
   | some e => cases e <;> simp [truthy]
+
+/-! ## the fallback `tryEncodings` (`:445-497`), when chardet is not installed
+
+Not reachable from `getEncodingInfo` (`tryEncodings_unreachable`), but a public function of the module. -/
+
+/-- for every `bytes` text the trial loop answers: ascii if every byte is ASCII; else windows-1252 if the bytes are
+valid windows-1252 and contain the Euro sign (0x80); else iso-8859-1 — whatever UTF-8 validity says (the `utf-8`
+entry of the tuple is dead: iso-8859-1 decodes everything) -/
+theorem tryEncodings_spec (utf8ok : Bool) (b : List UInt8) : tryEncodings utf8ok b = some (some (specTry b)) :=
+  tryEncodings_eq utf8ok b
+
+/-- it never answers `None` and never `utf-8` -/
+theorem tryEncodings_never_utf8 (utf8ok : Bool) (b : List UInt8) :
+    ∃ e, tryEncodings utf8ok b = some (some e) ∧ e ≠ cps "utf-8" := by
+  refine ⟨specTry b, tryEncodings_eq utf8ok b, ?_⟩
+  unfold specTry
+  split
+  · decide
+  · split <;> decide
 
 /-! ## T20.5 — the document given as text or as bytes
 
